@@ -126,6 +126,21 @@ def generate(rng, tier):
         yield {"a": a, "b": b}
 
 
+
+def exhaustive(tier):
+    """all ordered pairs of one-state automata over one symbol, and of two-state DFAs over one symbol"""
+    if tier != "thorough":
+        return
+    ones = list(F.enumerate_fa(1, 1, "E"))
+    for a in ones:
+        for b in ones:
+            yield {"a": a, "b": b}
+    dfas = list(F.enumerate_fa(2, 1, "D"))
+    for a in dfas:
+        for b in dfas:
+            yield {"a": a, "b": b}
+
+
 def run_case(case, drv):
     res = CaseResult()
     sa, sb = case["a"], case["b"]
